@@ -7,6 +7,7 @@ mod bytes;
 mod vecs;
 mod concat;
 mod counter;
+mod traits;
 
 #[global_allocator]
 static GLOBAL: alloc::Tracking = alloc::Tracking;
@@ -40,6 +41,7 @@ fn main() {
         "vec" => vecs::run(&out, &tier, seed, &rest),
         "concat" => concat::run(&out, &tier, seed, &rest),
         "counter" => counter::run(&out, &tier, seed, &rest),
+        "traits" => traits::run(&out, &tier, seed, &rest),
         _ => { eprintln!("unknown driver {}", driver); std::process::exit(2); }
     }
 }
